@@ -162,6 +162,9 @@ impl Report {
             }
         }
         let detail = detail.into();
+        if std::env::var_os("VF_DUMP").is_some() {
+            eprintln!("VIOL\t{}\t{}\t{}\t{}", section, sig, case, detail);
+        }
         let mut v = self.viols.lock().unwrap();
         match v.get_mut(sig) {
             None => {
